@@ -29,6 +29,10 @@ pub trait Scalar: CoordNum + std::fmt::Debug + 'static {
     fn from_code(c: i64) -> Self;
     /// geo-level mutators that need float arithmetic (no-op for integer scalars)
     fn float_op(_p: &mut Polygon<Self>, _k: u8) {}
+    /// geo algorithms deriving new polygons / rects (floats only)
+    fn derive(_p: &Polygon<Self>, _k: u8) -> (Vec<Polygon<Self>>, Vec<Rect<Self>>) {
+        (vec![], vec![])
+    }
 }
 impl Scalar for f64 {
     const NAME: &'static str = "f64";
@@ -38,6 +42,9 @@ impl Scalar for f64 {
     }
     fn float_op(p: &mut Polygon<f64>, k: u8) {
         float_op_impl(p, k)
+    }
+    fn derive(p: &Polygon<f64>, k: u8) -> (Vec<Polygon<f64>>, Vec<Rect<f64>>) {
+        derive_f64(p, k)
     }
 }
 impl Scalar for f32 {
@@ -63,6 +70,38 @@ impl Scalar for i64 {
     fn from_code(c: i64) -> i64 {
         c
     }
+}
+
+fn derive_f64(p: &Polygon<f64>, k: u8) -> (Vec<Polygon<f64>>, Vec<Rect<f64>>) {
+    use geo::algorithm::bool_ops::BooleanOps;
+    use geo::algorithm::orient::Direction;
+    use geo::algorithm::{BoundingRect, ChaikinSmoothing, ConvexHull, Orient, Simplify, SimplifyVwPreserve};
+    let mut ps = vec![];
+    let mut rs = vec![];
+    match k % 9 {
+        0 => ps.push(p.orient(Direction::Default)),
+        1 => ps.push(p.orient(Direction::Reversed)),
+        2 => ps.push(p.simplify(0.3)),
+        3 => ps.push(p.simplify_vw_preserve(0.3)),
+        4 => ps.push(p.convex_hull()),
+        5 => ps.push(p.chaikin_smoothing(1)),
+        6 => ps.push(geo::algorithm::RemoveRepeatedPoints::remove_repeated_points(p)),
+        7 => {
+            // only for short rings: the overlay of arbitrary invalid input is kept tiny
+            if p.exterior().0.len() <= 12 && p.interiors().iter().all(|r| r.0.len() <= 12) {
+                let shifted = geo::algorithm::Translate::translate(p, 0.5, 0.25);
+                ps.extend(p.union(&shifted).0);
+                ps.extend(p.difference(&shifted).0.into_iter().take(3));
+            }
+        }
+        _ => {
+            if let Some(r) = p.bounding_rect() {
+                rs.push(r);
+                ps.push(r.to_polygon());
+            }
+        }
+    }
+    (ps, rs)
 }
 
 fn float_op_impl<T: geo::CoordFloat>(p: &mut Polygon<T>, k: u8) {
@@ -102,6 +141,15 @@ pub enum Edit {
     RotateLeft(usize),
     CloseNow,
     Dedup,
+    /// Vec APIs a closure may legally use on the coordinate vector
+    Drain(usize, usize),
+    RetainEvenIdx,
+    ExtendFrom(Vec<C>),
+    SwapRemove(usize),
+    SplitOff(usize),
+    SortByX,
+    DedupByX,
+    ExtendFromWithin,
     /// interiors only: swap this ring with ring `j`
     SwapRing(usize),
     /// interiors only: take the ring out (leave an empty one)
@@ -141,6 +189,9 @@ pub enum Op {
     Translate { slot: usize, d: C },
     FloatOp { slot: usize, k: u8 },
     Orient { slot: usize, k: u8 },
+    /// a geo algorithm that builds NEW polygons / rects from a pool polygon (orient, simplify,
+    /// convex hull, smoothing, boolean ops, bounding rect …): the results join the pool
+    GeoDerive { slot: usize, k: u8 },
     // ---- Rect pool
     RectNew { a: C, b: C },
     RectSet { slot: usize, which_max: bool, c: C },
@@ -210,6 +261,7 @@ pub fn op_name(op: &Op) -> &'static str {
         Op::Translate { .. } => "translate_mut",
         Op::FloatOp { .. } => "affine_transform_mut",
         Op::Orient { .. } => "reverse rings through exterior_mut/interiors_mut",
+        Op::GeoDerive { .. } => "geo algorithm deriving new polygons/rects",
         Op::RectNew { .. } => "Rect::new",
         Op::RectSet { .. } => "Rect::set_min/set_max",
         Op::RectSetRaw { .. } => "Rect::set_min/set_max (arbitrary corner)",
@@ -271,6 +323,41 @@ fn apply_edit<T: Scalar>(ls: &mut LineString<T>, e: &Edit) {
         }
         Edit::CloseNow => ls.close(),
         Edit::Dedup => ls.0.dedup(),
+        Edit::Drain(a, b) => {
+            let n = ls.0.len();
+            if n > 0 {
+                let (a, b) = (a % n, b % (n + 1));
+                let (a, b) = if a <= b { (a, b) } else { (b, a) };
+                ls.0.drain(a..b);
+            }
+        }
+        Edit::RetainEvenIdx => {
+            let mut k = 0usize;
+            ls.0.retain(|_| {
+                k += 1;
+                k % 2 == 1
+            });
+        }
+        Edit::ExtendFrom(cs) => {
+            let v: Vec<Coord<T>> = cs.iter().map(co::<T>).collect();
+            ls.0.extend_from_slice(&v)
+        }
+        Edit::SwapRemove(i) => {
+            if !ls.0.is_empty() {
+                let n = ls.0.len();
+                ls.0.swap_remove(i % n);
+            }
+        }
+        Edit::SplitOff(i) => {
+            let n = ls.0.len();
+            let _ = ls.0.split_off(i % (n + 1));
+        }
+        Edit::SortByX => ls.0.sort_by(|a, b| a.x.partial_cmp(&b.x).unwrap_or(std::cmp::Ordering::Equal)),
+        Edit::DedupByX => ls.0.dedup_by(|a, b| a.x == b.x),
+        Edit::ExtendFromWithin => {
+            let n = ls.0.len();
+            ls.0.extend_from_within(0..n / 2)
+        }
         Edit::SwapRing(_) | Edit::TakeRing => {}
     }
 }
@@ -602,6 +689,29 @@ impl<T: Scalar> State<T> {
                     T::float_op(&mut self.polys[i], *k);
                 }
             }
+            Op::GeoDerive { slot, k } => {
+                if let Some(i) = self.slot(*slot) {
+                    let src = self.polys[i].clone();
+                    let kk = *k;
+                    match std::panic::catch_unwind(std::panic::AssertUnwindSafe(|| T::derive(&src, kk))) {
+                        Ok((ps, rs)) => {
+                            for p in ps.into_iter().take(3) {
+                                self.add_poly(p);
+                            }
+                            for r in rs {
+                                if self.rects.len() >= MAX_RECTS {
+                                    self.rects.remove(0);
+                                }
+                                self.rects.push(r);
+                            }
+                        }
+                        Err(_) => {
+                            let _ = crate::cli::take_last_panic();
+                            pr.hit("derive_panicked");
+                        }
+                    }
+                }
+            }
             Op::Orient { slot, k } => {
                 if let Some(i) = self.slot(*slot) {
                     // Orient is only implemented for float-ish scalars through Winding;
@@ -896,12 +1006,42 @@ pub fn run_history(h: &History) -> RunResult {
 // generation
 // ---------------------------------------------------------------------------------------------
 
+/// per-history swarm knobs: most histories are small and dense in coincidences, some have long
+/// rings, many holes, long histories or far / large coordinates
+#[derive(Clone, Copy, Default)]
+pub struct Swarm {
+    pub long_rings: bool,
+    pub far: bool,
+}
+thread_local! {
+    static SWARM: std::cell::Cell<Swarm> = const { std::cell::Cell::new(Swarm { long_rings: false, far: false }) };
+}
+
 fn gen_c(rng: &mut Rng) -> C {
-    (rng.range(-4, 8), rng.range(-4, 8))
+    let sw = SWARM.with(|s| s.get());
+    if sw.far {
+        // large magnitudes (products of differences still fit i32), still with coincidences
+        let base = *rng.pick(&[-(1i64 << 14), 0, 1 << 13, (1 << 14) - 3]);
+        (base + rng.range(-2, 3), base / 2 + rng.range(-2, 3))
+    } else {
+        (rng.range(-4, 8), rng.range(-4, 8))
+    }
 }
 
 /// Rings are deliberately open, empty, single-point, already closed, or closed with repeats.
 fn gen_ring(rng: &mut Rng) -> Vec<C> {
+    let sw = SWARM.with(|s| s.get());
+    if sw.long_rings && rng.chance(1, 2) {
+        // long rings: 9..130 coordinates, closed or open
+        let span = *rng.pick(&[8usize, 24, 56, 120]);
+        let n = 9 + rng.below(span);
+        let mut v: Vec<C> = (0..n).map(|_| gen_c(rng)).collect();
+        if rng.chance(1, 2) {
+            let f = v[0];
+            v.push(f);
+        }
+        return v;
+    }
     match rng.below(10) {
         0 => vec![],
         1 => vec![gen_c(rng)],
@@ -925,7 +1065,7 @@ fn gen_ring(rng: &mut Rng) -> Vec<C> {
 }
 
 fn gen_edit(rng: &mut Rng, interiors: bool) -> Edit {
-    let k = rng.below(if interiors { 19 } else { 17 });
+    let k = rng.below(if interiors { 27 } else { 25 });
     match k {
         0 | 1 => Edit::Push(gen_c(rng)),
         2 => Edit::Pop,
@@ -941,7 +1081,15 @@ fn gen_edit(rng: &mut Rng, interiors: bool) -> Edit {
         14 => Edit::RotateLeft(1 + rng.below(4)),
         15 => Edit::CloseNow,
         16 => Edit::Dedup,
-        17 => Edit::SwapRing(rng.below(4)),
+        17 => Edit::Drain(rng.below(8), rng.below(8)),
+        18 => Edit::RetainEvenIdx,
+        19 => Edit::ExtendFrom(gen_ring(rng)),
+        20 => Edit::SwapRemove(rng.below(8)),
+        21 => Edit::SplitOff(rng.below(8)),
+        22 => Edit::SortByX,
+        23 => Edit::DedupByX,
+        24 => Edit::ExtendFromWithin,
+        25 => Edit::SwapRing(rng.below(4)),
         _ => Edit::TakeRing,
     }
 }
@@ -988,7 +1136,13 @@ pub fn gen_op(rng: &mut Rng) -> Op {
         29 => Op::RemoveRepeated { slot },
         30 => Op::Translate { slot, d: gen_c(rng) },
         31 => Op::FloatOp { slot, k: rng.below(4) as u8 },
-        32 => Op::Orient { slot, k: rng.below(4) as u8 },
+        32 => {
+            if rng.chance(1, 2) {
+                Op::Orient { slot, k: rng.below(4) as u8 }
+            } else {
+                Op::GeoDerive { slot, k: rng.below(9) as u8 }
+            }
+        }
         33 => Op::RectNew { a: gen_c(rng), b: gen_c(rng) },
         34 => {
             if rng.chance(1, 2) {
@@ -1014,16 +1168,20 @@ pub fn gen_op(rng: &mut Rng) -> Op {
 pub fn gen_history(seed: u64) -> History {
     let mut rng = Rng::stream(seed, "c18-workload");
     let scalar = *rng.pick(&["f64", "f64", "f32", "i32", "i64"]);
-    // swarm: some runs use only a subset of the op kinds
-    let n = 2 + rng.below(15);
+    // swarm: per-history knobs
+    let sw = Swarm { long_rings: rng.chance(1, 8), far: rng.chance(1, 10) };
+    SWARM.with(|s| s.set(sw));
+    let n = if rng.chance(1, 12) { 17 + rng.below(60) } else { 2 + rng.below(15) };
     let mut ops = Vec::with_capacity(n + 1);
-    ops.push(Op::New { ext: gen_ring(&mut rng), ints: (0..rng.below(3)).map(|_| gen_ring(&mut rng)).collect() });
+    let nints = if rng.chance(1, 10) { 3 + rng.below(5) } else { rng.below(3) };
+    ops.push(Op::New { ext: gen_ring(&mut rng), ints: (0..nints).map(|_| gen_ring(&mut rng)).collect() });
     if rng.chance(1, 3) {
         ops.push(Op::RectNew { a: gen_c(&mut rng), b: gen_c(&mut rng) });
     }
     for _ in 0..n {
         ops.push(gen_op(&mut rng));
     }
+    SWARM.with(|s| s.set(Swarm::default()));
     History { scalar: scalar.to_string(), ops }
 }
 
